@@ -180,24 +180,41 @@ func (l *Lexer) Next() (TokenType, []byte) {
 
 // The following functions follow the specifications at http://www.w3.org/html/wg/drafts/html/master/syntax.html
 
+var (
+	commentEndBytes = []byte("-->")
+	piEndBytes      = []byte("?>")
+)
+
 func (l *Lexer) shiftDOCTYPEText() []byte {
 	quote := byte(0) // the quote character of the literal we are in, or zero
 	inBrackets := false
+	var skipTo []byte // the end of the comment or processing instruction of the internal subset we are in, or nil
 	for {
 		c := l.r.Peek(0)
 		inString := quote != 0
-		if c == quote && inString {
+		if c == 0 {
+			l.text = l.r.Lexeme()[9:]
+			return l.r.Shift()
+		} else if skipTo != nil {
+			if l.at(skipTo...) {
+				l.r.Move(len(skipTo) - 1)
+				skipTo = nil
+			}
+		} else if c == quote && inString {
 			quote = 0
 		} else if (c == '"' || c == '\'') && !inString {
 			quote = c
+		} else if c == '<' && inBrackets && !inString && l.at('<', '!', '-', '-') {
+			skipTo = commentEndBytes
+			l.r.Move(3)
+		} else if c == '<' && inBrackets && !inString && l.r.Peek(1) == '?' {
+			skipTo = piEndBytes
+			l.r.Move(1)
 		} else if (c == '[' || c == ']') && !inString {
 			inBrackets = (c == '[')
 		} else if c == '>' && !inString && !inBrackets {
 			l.text = l.r.Lexeme()[9:]
 			l.r.Move(1)
-			return l.r.Shift()
-		} else if c == 0 {
-			l.text = l.r.Lexeme()[9:]
 			return l.r.Shift()
 		}
 		l.r.Move(1)
